@@ -11,7 +11,7 @@ INDEX = {
     "C07": ["c06", "c04"],
     "C08": ["c08"],
     "C09": ["c09"],
-    "C10": ["c10"],
+    "C10": ["c10", "c04"],
     "C11": ["c11"],
     "C13": ["c13"],
     "C14": ["c13"],
